@@ -15,8 +15,8 @@ for pkg in $(ls -d */ | tr -d / | grep -v -e '^vk$' -e '^probe$' -e '^cmd$' -e '
 done
 # schedule-explorer packages are built against an overlay of instrumented repository sources
 go build -o ../.out/instrument ./cmd/instrument
-for spec in schedx:store schedsync:sync; do
-  pkg=${spec%%:*}; src=${spec##*:}
+for spec in "schedx:store" "schedsync:-trace setLocalHead sync"; do
+  pkg=${spec%%:*}; src=${spec#*:}
   if ls $pkg/*_test.go >/dev/null 2>&1; then
     rm -rf ../.out/overlay-$pkg
     ../.out/instrument -repo /repo -out ../.out/overlay-$pkg -rt "$(pwd)/vrtsrc" $src
